@@ -29,6 +29,10 @@
   <= 1e3 in float32) shows up as an O(1) residual excess.  Every problem is judged in every call form:
   default / explicit cut-off, all LSTSQ drivers, float64 / float32 input, BOTH process default dtypes
   (torch.set_default_dtype, restored), memory layouts, reused solver objects; arguments are snapshotted.
+  Batches are judged item by item, each against its own construction, and their items are made as unlike
+  as the quantifier allows: scales differing by up to 2^80 (item_scales; exact power-of-two scaling),
+  independent condition numbers, full-rank next to exactly rank-deficient items (family 'mixed') - the
+  answer for one item must not depend on its neighbours.  Cholesky batches likewise (residual per item).
   This validates hypotheses about torch on samples; it proves nothing about LAPACK.
 * Cholesky failure clause (repaired in /repo 3f16d24, `fixed:` in known_findings.txt): the former witnesses
   (A=[[1,2],[2,1]], [[1,1],[1,1]], [[-1]]) are kept as directed cases and every generated indefinite /
